@@ -911,21 +911,39 @@ bool qlisttbl_save(qlisttbl_t *tbl, const char *filepath, char sepchar,
     }
 
     char *gmtstr = qtime_gmt_str(0);
-    qio_printf(fd, -1, "# %s %s\n", filepath, gmtstr);
+    if (gmtstr == NULL) {
+        close(fd);
+        errno = ENOMEM;
+        return false;
+    }
+    int err = 0;  // reason why the file is incomplete
+    if (qio_printf(fd, -1, "# %s %s\n", filepath, gmtstr) < 0) {
+        err = (errno != 0) ? errno : EIO;
+    }
     free(gmtstr);
 
     qlisttbl_lock(tbl);
     qlisttbl_obj_t *obj;
-    for (obj = tbl->first; obj; obj = obj->next) {
+    for (obj = tbl->first; obj && err == 0; obj = obj->next) {
         char *encval;
         if (encode == true) encval = qurl_encode(obj->data, obj->size);
         else encval = obj->data;
-        qio_printf(fd, -1, "%s%c%s\n", obj->name, sepchar, encval);
+        if (encval == NULL) {
+            err = ENOMEM;
+            break;
+        }
+        if (qio_printf(fd, -1, "%s%c%s\n", obj->name, sepchar, encval) < 0) {
+            err = (errno != 0) ? errno : EIO;
+        }
         if (encode == true) free(encval);
     }
     qlisttbl_unlock(tbl);
 
     close(fd);
+    if (err != 0) {
+        errno = err;
+        return false;
+    }
     return true;
 }
 
